@@ -440,3 +440,21 @@ pub fn replay(id: &str, path: &str, verif_dir: &std::path::Path) -> i32 {
         }
     }
 }
+
+/// The text with which this build of exmex reports `0^0` in its power shortcut (obtained by
+/// provoking it once), so that recognising that documented error does not depend on its wording.
+pub fn zero_pow_zero_msg() -> &'static str {
+    static MSG: std::sync::OnceLock<String> = std::sync::OnceLock::new();
+    MSG.get_or_init(|| {
+        use exmex::prelude::*;
+        match exmex::DeepEx::<f64>::zero().pow(exmex::DeepEx::<f64>::zero()) {
+            Err(e) => e.msg().to_string(),
+            Ok(_) => "\u{0}no error for zero to the power of zero\u{0}".to_string(),
+        }
+    })
+}
+
+/// is this the `0^0` error of the power shortcut?
+pub fn is_zero_pow_zero(msg: impl AsRef<str>) -> bool {
+    msg.as_ref().contains(zero_pow_zero_msg())
+}
